@@ -746,7 +746,7 @@ func corpusFor(t types.Type, qual types.Qualifier) []string {
 		switch {
 		case u.Info()&types.IsString != 0:
 			var out []string
-			for _, s := range []string{"", "+Inf", "Infinity", "-infinity", "NaN", "1e999", "9223372036854775808", "18446744073709551615", "-9223372036854775808", "0x1p-2", "TRUE", "1", "12", "-0", "a", "a.b", "a.c", "a.b.x", "k", "l", "*", "a.*", "a.c[0]", "a.c[9]", "a.c[0].d", "l[1]", ".", "a.", ".a", "a..b", "[", "a[", "a[]", "a[x]", "a[9223372036854775807]", "a[2147483647]", ":", ":x", "a:", "a:b", "a:b:c", "a:b:bool", "a:1:float", "!a:*", "a:b:c:d", "k:v", "-id:1", "x:y", "k:new", "b:new", "a.b:q", "n", "n.x", "k.x", "t.x", "#text", "-id"} {
+			for _, s := range []string{"", "+Inf", "Infinity", "-infinity", "NaN", "1e999", "9223372036854775808", "18446744073709551615", "-9223372036854775808", "0x1p-2", "TRUE", "1", "12", "-0", "a", " k", "k ", " k:x", "a.b", "a.c", "a.b.x", "k", "l", "*", "a.*", "a.c[0]", "a.c[9]", "a.c[0].d", "l[1]", ".", "a.", ".a", "a..b", "[", "a[", "a[]", "a[x]", "a[9223372036854775807]", "a[2147483647]", ":", ":x", "a:", "a:b", "a:b:c", "a:b:bool", "a:1:float", "!a:*", "a:b:c:d", "k:v", "-id:1", "x:y", "k:new", "b:new", "a.b:q", "n", "n.x", "k.x", "t.x", "#text", "-id"} {
 				out = append(out, ts+"("+strconv.Quote(s)+")")
 			}
 			return out
@@ -943,7 +943,10 @@ func collectPtrHelpers(t types.Type, qual types.Qualifier, out map[string]string
 func rerunForValues(o *Obligation, terms []*Term, scratch string) string {
 	c := o.Ctx
 	e := c.eng
-	hyps := relevantFacts(c, o.NFacts, o.Goal)
+	tsMu.Lock()
+	hyps := relevantFacts(c, o.NFacts, o.Goal, o.Gap, o.PC)
+	hyps = append(hyps, preInstantiate(e.ts, hyps, o.Goal)...)
+	tsMu.Unlock()
 	body := e.ts.Script("", e.tc.Datatypes(), hyps, o.Goal, terms)
 	var sp *solverSpec
 	for i := range solvers {
@@ -1155,7 +1158,7 @@ func scheduleCallBody(fn *ssa.Function, args []string) string {
 }
 
 var ghostIntrinsicNames = []string{"verifBuf", "verifRdPos", "verifRdData", "verifRdEOF", "verifWritten", "verifTokPos", "verifTokDepth", "verifFresh", "verifFreshVal",
-	"verifRangeCount", "verifRangeIndex", "verifHeight", "verifIsNaN", "verifIsInf", "verifVisited", "verifLent", "verifInfallibleWriter", "verifIsByteReader", "verifMapsSameExcept", "verifMapSameExceptKey", "verifMapSameExceptKeys", "verifOldHas", "verifOldGet", "verifOldLen"}
+	"verifRangeCount", "verifRangeIndex", "verifHeight", "verifIsNaN", "verifIsInf", "verifVisited", "verifLent", "verifInfallibleWriter", "verifIsByteReader", "verifMapsSameExcept", "verifMapSameExceptKey", "verifMapSameExceptKeys", "verifOldHas", "verifOldGet", "verifOldLen", "verifLoopSame"}
 
 // usesGhostIntrinsic: the clause mentions a ghost function that has no executable body (cannot be evaluated in a replay).
 func usesGhostIntrinsic(expr string) bool {
